@@ -1018,8 +1018,10 @@ pub fn run(ops: &str, out: &mut dyn Write, mon: &mut dyn Write) {
                             if !hdr_ok || norm(&got) != norm(&built) || dump.iter().any(|l| l.starts_with("objerr")) {
                                 // cause predicate of D18: a scan header built through the public API for a variation that
                                 // the parser's table for that qualifier does not list
+                                // (rejected outright, or — for a non-READ function and a variation that carries data under a
+                                // range / count qualifier — taken with the following header's octets as its objects)
                                 let d17 = case_attr(&hdr, "any") == Some("1") && hdr_ok
-                                    && dump.iter().any(|l| l.starts_with("objerr"));
+                                    && (dump.iter().any(|l| l.starts_with("objerr")) || func != 1);
                                 writeln!(mon, "MONITOR-FAIL {hdr} :: builder_output_parses_back_to_what_was_built{} :: built {:?} got {:?}", if d17 { " cause=D18" } else { "" }, built, got).unwrap();
                             }
                         }
